@@ -88,6 +88,15 @@ def name_pairing_violations(idx, f) -> Iterator[Tuple[ast.Call, int, str, str]]:
                     yield c, i, nm, params[i]
 
 
+def keyword_swap_violations(f) -> Iterator[Tuple[ast.Call, str, str]]:
+    """`g(a=b, b=a)`: two keywords that each receive the variable named like the other."""
+    for c in iter_calls(f.node):
+        kw = {k.arg: k.value.id for k in c.keywords if k.arg and isinstance(k.value, ast.Name)}
+        for k, v in kw.items():
+            if v != k and kw.get(v) == k and k < v:
+                yield c, k, v
+
+
 def passthrough_map(f, call: ast.Call):
     ps = set(x.arg for x in f.node.args.posonlyargs + f.node.args.args + f.node.args.kwonlyargs)
     return {k.arg for k in call.keywords if k.arg and isinstance(k.value, ast.Name) and k.value.id == k.arg and k.arg in ps}
@@ -169,6 +178,8 @@ def pairing_rule(idx, r, prefixes: Iterable[str], min_resolved: int = 20):
         for c, k in same_callee_passthrough_violations(f):
             r.violate(f"{f.qualname}:{k}-passed-through-in-every-sibling-call", f, f"`{str(norm(c))[:90]}` fixes `{k}` to a literal while the sibling calls to the same function pass the caller's `{k}` through: "
                       f"for any other `{k}` this call computes with the wrong option", node=c)
+        for c, k, v in keyword_swap_violations(f):
+            r.violate(f"{f.qualname}:{k}-and-{v}-not-exchanged", f, f"`{str(norm(c))[:90]}` passes `{v}` as `{k}` and `{k}` as `{v}`: the two values are exchanged", node=c)
         for c, k in dropped_forward_violations(idx, f):
             if (f.qualname, k) in FORWARD_EXEMPT:
                 continue
